@@ -71,9 +71,9 @@ func c09Counts(tier string) int64 {
 
 func init() {
 	Register(&Prop{
-		ID:   "C09",
-		Rule: "workspaces of 1-4 journals from G with shared account/payee/commodity pools (chains, stars, diamonds, random DAGs), with and without workspace root, optionally with an unsaved edit in one open included file, or with the root's first include directive added by an unsaved edit after start-up (the included file and its own includes join the tree then); for the cursor on every occurrence of every account, commodity and payee, asked from the root and from every included file: references with and without declarations must be exactly the occurrences in the lexeme tables of the files in scope (workspace tree with a root, the file and its include closure without), each under the URI of the file that contains it; rename must return edits at exactly those spans, and applying them must give exactly the texts in which every occurrence reads the new name (nothing else changes), which must parse silently. Non-trivial = symbol with occurrences in >=2 files; distinct by workspace+symbol hash.",
-		Notes: []string{"commodity occurrences in P/D/format lines are allowed but not required (the statement names amounts, costs, assertions and commodity directives)", "new names are plain (no quoting needed)"},
+		ID:          "C09",
+		Rule:        "workspaces of 1-4 journals from G with shared account/payee/commodity pools (chains, stars, diamonds, random DAGs), with and without workspace root, optionally with an unsaved edit in one open included file, or with the root's first include directive added by an unsaved edit after start-up (the included file and its own includes join the tree then); for the cursor on every occurrence of every account, commodity and payee, asked from the root and from every included file: references with and without declarations must be exactly the occurrences in the lexeme tables of the files in scope (workspace tree with a root, the file and its include closure without), each under the URI of the file that contains it; rename must return edits at exactly those spans, and applying them must give exactly the texts in which every occurrence reads the new name (nothing else changes), which must parse silently. Non-trivial = symbol with occurrences in >=2 files; distinct by workspace+symbol hash.",
+		Notes:       []string{"commodity occurrences in P/D/format lines are allowed but not required (the statement names amounts, costs, assertions and commodity directives)", "new names are plain (no quoting needed)"},
 		Cases:       c09Counts,
 		MustObserve: []string{"workspaces", "reference_requests", "rename_requests", "symbols_in_several_files"},
 		Setup:       func(c *Ctx) { c.State = &c09State{bad: c.Known.BadFeatureSets("C03", "C08", "C09")} },
